@@ -296,7 +296,7 @@ def trRead (w : World) (pl : HandlePlan) : Nat â†’ St â†’ TR â†’ Nat â†’ Bytes Ã
           if p then ([], some .other, st, r, true) else
           let next : Except Err (Bytes Ã— Bool) :=
             match res with
-            | .error .eof => if !r.consumedFirst && pl.clientReqNeedsPrep then .ok ([], st.op.cReqComp.isSome && st.op.clientEnveloper.isNone) else .error .eof
+            | .error .eof => if !r.consumedFirst && (pl.clientReqNeedsPrep || st.op.clientEnveloper.isNone) then .ok ([], st.op.cReqComp.isSome && st.op.clientEnveloper.isNone) else .error .eof
             | x => x
           match next with
           | .error e => ([], some e, st, { r with err := some e }, false)
